@@ -2,11 +2,12 @@
 
 Case = a list of flow widgets of prescribed heights (rows labelled "<id>:<row>", so that the window
 can be read back from the rendered text), a walker kind, an optional directly written view state
-(focus, offset_rows, inset_fraction) and a history of steps; every step is one action followed by
-render((cols, maxrow), focus) .  The implementation result is compared exactly with the extracted
+(offset_rows, inset_fraction) and a history of steps; every step is one action followed by
+render((cols, maxrow), focus).  The implementation result is compared exactly with the extracted
 Coq model (Model/ListBoxView.v) and judged by an oracle written from the property text.
 """
 import ast
+import glob
 import itertools
 import os
 import re
@@ -19,10 +20,11 @@ warnings.simplefilter("ignore")
 ERRN = {1: "IndexError", 2: "ValueError", 3: "TypeError", 4: "WidgetError", 5: "CanvasError", 6: "ListBoxError",
         7: "AttrSpecError", 8: "KeyError", 9: "RuntimeError", 10: "OtherError"}
 CF = {None: 0, "above": 1, "below": 2}
-CFN = {0: None, 1: "above", 2: "below"}
 KEYC = {"up": 1, "down": 2, "j": 3, "k": 4}
-MODELLED_KEYS = set(KEYC)
 COLS = 8
+EDITS = ("insert", "delete", "replace", "reflow", "clear")
+WRITERS = ("__init__", "shift_focus", "change_focus")
+VIEW_ATTRS = ("offset_rows", "inset_fraction")
 
 
 def norm_err(name):
@@ -83,6 +85,7 @@ def widgets():
         """zero-height flow widget for the real-widget histories"""
         _sizing = frozenset(["flow"])
         _selectable = False
+        n = None
 
         def rows(self, size, focus=False):
             return 0
@@ -92,7 +95,6 @@ def widgets():
 
     class Sel(urwid.WidgetWrap):
         """selectable wrapper without a cursor"""
-        _selectable = True
 
         def selectable(self):
             return True
@@ -132,6 +134,9 @@ def widgets():
         def __len__(self):
             return len(self.ws)
 
+        def __iter__(self):
+            return iter(list(self.ws))
+
         # edits (the focus follows its item; a deleted focus item is replaced by its successor)
         def insert(self, i, w):
             i = max(0, min(i, len(self.ws)))
@@ -165,16 +170,18 @@ def make_widget(kind, n, spec):
     if kind != "real":
         return W["Item"](n, h, sel, cy)
     if h == 0:
-        return W["Zero"]()
-    text = "\n".join(f"{n}:{r}" for r in range(h))
-    if not sel:
-        return urwid.Text(text)
-    if cy is None:
-        return W["Sel"](urwid.Text(text))
-    e = urwid.Edit("", text, multiline=True)
-    # put the cursor at the start of line cy
-    e.set_edit_pos(sum(len(f"{n}:{r}") + 1 for r in range(cy)))
-    return e
+        w = W["Zero"]()
+    else:
+        text = "\n".join(f"{n}:{r}" for r in range(h))
+        if not sel:
+            w = urwid.Text(text)
+        elif cy is None:
+            w = W["Sel"](urwid.Text(text))
+        else:
+            w = urwid.Edit("", text, multiline=True)
+            w.set_edit_pos(sum(len(f"{n}:{r}") + 1 for r in range(cy)))   # start of line cy
+    w.n = n
+    return w
 
 
 def widget_cy(w, cols):
@@ -200,28 +207,6 @@ def read_rows(canvas, ids):
     return out
 
 
-def apply_edit(items, a):
-    """the same edit on a plain list of item specs (oracle side and model side)"""
-    items = [list(x) for x in items]
-    k = a[0]
-    if k == "insert":
-        items.insert(max(0, min(a[1], len(items))), list(a[2]))
-    elif k == "delete":
-        if 0 <= a[1] < len(items):
-            del items[a[1]]
-    elif k == "replace":
-        if 0 <= a[1] < len(items):
-            items[a[1]] = list(a[2])
-    elif k == "reflow":
-        items = [list(x) for x in a[1]][:len(items)] + items[len(a[1]):]
-    elif k == "clear":
-        items = []
-    return items
-
-
-EDITS = ("insert", "delete", "replace", "reflow", "clear")
-
-
 class C07(core.Check):
     pid = "C07"
     gen_modules = []
@@ -231,12 +216,13 @@ class C07(core.Check):
     allowed_axioms = set()
     design_ref = "DESIGN.md section 5 (C07) and Appendix D"
     search_budget = {"quick": 60, "thorough": 400}
+    correspondence_name = "ListBoxView model vs ListBox (render windows, errors, view state after every step)"
 
-    # ---------- implementation ----------
     def __init__(self):
         super().__init__()
         self._cache = {}
 
+    # ---------- implementation ----------
     def build(self, case):
         W = widgets()
         urwid = W["urwid"]
@@ -260,7 +246,7 @@ class C07(core.Check):
         return lb, body, ws
 
     @staticmethod
-    def lb_state(lb, body, ws):
+    def lb_state(lb, body):
         w, pos = body.get_focus()
         p = lb.set_focus_pending
         if p is None:
@@ -269,16 +255,69 @@ class C07(core.Check):
             pe = [1]
         else:
             pe = [2, CF.get(p[0], 0), p[2] if isinstance(p[2], int) else -1]
-        va = lb.set_focus_valign_pending
         st = [(-1 if w is None else pos), lb.offset_rows, lb.inset_fraction[0], lb.inset_fraction[1], pe]
-        if va is not None:
+        if lb.set_focus_valign_pending is not None:
             st.append("valign-pending")
         return st
+
+    @staticmethod
+    def modelled(case, a):
+        """actions the Coq model executes itself (everything else is re-synchronised from the
+        implementation state after the step's render)"""
+        if case.get("kind", "item") != "item":
+            return False
+        k = a[0]
+        if k == "key":
+            return a[1] in KEYC
+        return k in ("none", "mouse", "set_focus", "shift", "change", "mcv") or k in EDITS
+
+    def do_action(self, lb, body, kind, a, size, nxt):
+        """returns the 'act' observable or None"""
+        k = a[0]
+        if k == "none":
+            return None
+        if k == "key":
+            r = lb.keypress(size, a[1])
+            return 1 if r is not None else 0
+        if k == "mouse":
+            r = lb.mouse_event(size, "mouse press", a[1], 0, a[2], True)
+            return 1 if r else 0
+        if k == "set_focus":
+            lb.set_focus(a[1], a[2])
+        elif k == "valign":
+            v = a[1]
+            lb.set_focus_valign(tuple(v) if isinstance(v, list) else v)
+        elif k == "shift":
+            lb.shift_focus(size, a[1])
+        elif k == "change":
+            lb.change_focus(size, a[1], a[2], a[3])
+        elif k == "mcv":
+            lb.make_cursor_visible(size)
+        elif k == "insert":
+            w = make_widget(kind, nxt[0], a[2])
+            nxt[0] += 1
+            body.insert(max(0, min(a[1], len(body))), w)
+        elif k == "delete":
+            if 0 <= a[1] < len(body):
+                del body[a[1]]
+        elif k == "replace":
+            if 0 <= a[1] < len(body):
+                body[a[1]] = make_widget(kind, nxt[0], a[2])
+                nxt[0] += 1
+        elif k == "clear":
+            while len(body):
+                del body[len(body) - 1]
+        elif k == "reflow":
+            for w, sp in zip(list(body), a[1]):
+                if hasattr(w, "reflow"):
+                    w.reflow(*sp)
+        else:
+            raise core.MachineryError("unknown action " + k)
+        return None
 
     def run_impl(self, case):
         W = widgets()
         urwid = W["urwid"]
-        from urwid.widget.listbox import ListBoxError
         kind = case.get("kind", "item")
         cols = case.get("cols", COLS)
         lb, body, ws = self.build(case)
@@ -289,109 +328,49 @@ class C07(core.Check):
         for stp in case["steps"]:
             a, maxrow, ff = stp["a"], stp["mr"], bool(stp["ff"])
             size = (cols, maxrow)
-            out = {}
-            ax = {}
-            k = a[0]
+            out, ax = {}, {}
+            steps.append(out)
+            aux.append(ax)
+            # an alignment request that is still pending is completed inside the next action or render:
+            # set_focus_valign is not modelled, such a step is re-synchronised
+            ax["mod"] = self.modelled(case, a) and lb.set_focus_valign_pending is None
             try:
-                if k == "none":
-                    pass
-                elif k == "key":
-                    r = lb.keypress(size, a[1])
-                    if a[1] in MODELLED_KEYS and kind == "item":
-                        out["act"] = 1 if r is not None else 0
-                elif k == "mouse":
-                    r = lb.mouse_event(size, "mouse press", a[1], 0, a[2], True)
-                    out["act"] = 1 if r else 0
-                elif k == "set_focus":
-                    lb.set_focus(a[1], a[2])
-                elif k == "valign":
-                    v = a[1]
-                    lb.set_focus_valign(tuple(v) if isinstance(v, list) else v)
-                elif k == "shift":
-                    lb.shift_focus(size, a[1])
-                elif k == "change":
-                    lb.change_focus(size, a[1], a[2], a[3])
-                elif k == "mcv":
-                    lb.make_cursor_visible(size)
-                elif k == "insert":
-                    w = make_widget(kind, nxt[0], a[2])
-                    nxt[0] += 1
-                    body.insert(a[1], w)
-                elif k == "delete":
-                    if 0 <= a[1] < len(body):
-                        del body[a[1]]
-                elif k == "replace":
-                    if 0 <= a[1] < len(body):
-                        body[a[1]] = make_widget(kind, nxt[0], a[2])
-                        nxt[0] += 1
-                elif k == "clear":
-                    del body[:] if not hasattr(body, "ws") else [body.__delitem__(0) for _ in range(len(body))]
-                elif k == "reflow":
-                    for w, sp in zip(list(body), a[1]):
-                        if hasattr(w, "reflow"):
-                            w.reflow(*sp)
-                else:
-                    raise core.MachineryError("unknown action " + k)
+                act = self.do_action(lb, body, kind, a, size, nxt)
             except core.MachineryError:
                 raise
             except Exception as e:    # noqa: BLE001 - every exception class is an observable here
-                out["err"] = type(e).__name__
-                out["where"] = "action"
-                steps.append(out)
-                aux.append(ax)
+                out.update(err=norm_err(type(e).__name__), exc=type(e).__name__, where="action")
                 break
             cur_ws = list(body)
-            ids = {}
-            for i, w in enumerate(cur_ws):
-                n = getattr(w, "n", None)
-                if n is None:
-                    n = self._real_id(w)
-                ids[n] = i
-            ax["sa"] = self.lb_state(lb, body, cur_ws)
+            ids = {getattr(w, "n", None): i for i, w in enumerate(cur_ws)}
+            ax["sa"] = self.lb_state(lb, body)
             ax["items"] = [w.spec() for w in cur_ws] if kind == "item" else None
-            if self.modelled(case, a):
+            out["fa"] = ax["sa"][0]
+            if ax["mod"]:
                 out["sa"] = ax["sa"]
+                if act is not None:
+                    out["act"] = act
+            if stp.get("nr"):
+                continue                 # a step without a render (requests may stay pending)
             try:
                 canv = lb.render(size, ff)
-                out["view"] = read_rows(canv, ids)
+                view = read_rows(canv, ids)
                 cur = canv.cursor
-                out["cur"] = None if cur is None else cur[1]
             except Exception as e:    # noqa: BLE001
-                out["err"] = type(e).__name__
-                out["where"] = "render"
-                steps.append(out)
-                aux.append(ax)
+                out.update(err=norm_err(type(e).__name__), exc=type(e).__name__, where="render")
+                out["n"] = len(cur_ws)
                 break
-            out["st"] = self.lb_state(lb, body, cur_ws)
+            out["view"] = view
+            out["cur"] = None if cur is None else cur[1]
+            out["st"] = self.lb_state(lb, body)
             fw, _fp = body.get_focus()
+            out["f"] = out["st"][0]
             out["fcy"] = None if (fw is None or not ff) else widget_cy(fw, cols)
             out["hs"] = [w.rows((cols,), False) for w in cur_ws]
             out["sel"] = [1 if w.selectable() else 0 for w in cur_ws]
-            steps.append(out)
-            aux.append(ax)
         res = {"steps": steps}
         self._cache = {"key": core.canon(case), "res": res, "aux": aux}
         return res
-
-    @staticmethod
-    def _real_id(w):
-        t = getattr(w, "_w", w)
-        try:
-            txt = t.get_edit_text() if hasattr(t, "get_edit_text") else t.text
-        except Exception:  # noqa: BLE001
-            return -9
-        m = re.match(r"(\d+):", txt if isinstance(txt, str) else txt.decode())
-        return int(m.group(1)) if m else -9
-
-    @staticmethod
-    def modelled(case, a):
-        """actions the Coq model executes itself (everything else is re-synchronised)"""
-        if case.get("kind", "item") != "item":
-            return False
-        k = a[0]
-        if k == "key":
-            return a[1] in MODELLED_KEYS
-        return k in ("none", "mouse", "set_focus", "shift", "change", "mcv") or k in EDITS
 
     # ---------- model wire format ----------
     @staticmethod
@@ -401,62 +380,64 @@ class C07(core.Check):
             out += [h, 1 if sel else 0, 0 if cy is None else cy + 1]
         return out
 
-    @staticmethod
-    def enc_pend(pe):
-        return list(pe)
+    def cached(self, case):
+        if self._cache.get("key") != core.canon(case):
+            self.run_impl(case)
+        return self._cache["res"], self._cache["aux"]
+
+    def plan(self, case):
+        """per step: ('model', action ints) | ('sync', state) | ('stop',) ; shared by encode and decode"""
+        res, aux = self.cached(case)
+        plan = []
+        for i, stp in enumerate(case["steps"]):
+            if i >= len(res["steps"]):
+                break
+            a, maxrow = stp["a"], stp["mr"]
+            r, ax = res["steps"][i], aux[i]
+            k = a[0]
+            if ax["mod"]:
+                if k == "none":
+                    plan.append(("model", []))
+                elif k == "key":
+                    plan.append(("model", [2, maxrow, KEYC[a[1]]]))
+                elif k == "mouse":
+                    plan.append(("model", [3, maxrow, a[1], a[2]]))
+                elif k == "set_focus":
+                    plan.append(("model", [4, a[1], CF[a[2]]]))
+                elif k == "shift":
+                    plan.append(("model", [7, maxrow, a[1]]))
+                elif k == "change":
+                    plan.append(("model", [8, maxrow, a[1], a[2], CF[a[3]]]))
+                elif k == "mcv":
+                    plan.append(("model", [9, maxrow]))
+                else:   # walker edits: the model is told the new contents and the walker's focus
+                    if "sa" not in ax:
+                        plan.append(("stop",))
+                        break
+                    plan.append(("model", [6] + self.enc_items(ax["items"]) + [ax["sa"][0]]))
+            else:
+                if "st" not in r and not (stp.get("nr") and "sa" in ax):
+                    plan.append(("stop",))
+                    break
+                st = r["st"] if "st" in r else ax["sa"]
+                plan.append(("sync", [6] + self.enc_items(ax["items"]) + [st[0]] + [5, st[0], st[1], st[2], st[3]] + list(st[4])))
+        return plan
 
     def encode(self, case):
         if case.get("kind", "item") != "item":
             return None
-        if self._cache.get("key") != core.canon(case):
-            self.run_impl(case)
-        res, aux = self._cache["res"], self._cache["aux"]
         st = case.get("state")
         l = self.enc_items(case["items"]) + [case.get("focus", 0) if case["items"] else -1]
         l += ([st[0], st[1], st[2], 0] if st is not None else [0, 0, 1, 1])
         ops = []
-        nops = 0
-        for i, stp in enumerate(case["steps"]):
-            a, maxrow, ff = stp["a"], stp["mr"], 1 if stp["ff"] else 0
-            k = a[0]
-            if i >= len(res["steps"]):
+        for stp, pl in zip(case["steps"], self.plan(case)):
+            if pl[0] == "stop":
                 break
-            r, ax = res["steps"][i], aux[i]
-            acted = "sa" in ax
-            if self.modelled(case, a):
-                if k == "none":
-                    pass
-                elif k == "key":
-                    ops += [2, maxrow, KEYC[a[1]]]
-                elif k == "mouse":
-                    ops += [3, maxrow, a[1], a[2]]
-                elif k == "set_focus":
-                    ops += [4, a[1], CF[a[2]]]
-                elif k == "shift":
-                    ops += [7, maxrow, a[1]]
-                elif k == "change":
-                    ops += [8, maxrow, a[1], a[2], CF[a[3]]]
-                elif k == "mcv":
-                    ops += [9, maxrow]
-                elif k in EDITS:
-                    if not acted:
-                        break
-                    ops += [6] + self.enc_items(ax["items"]) + [ax["sa"][0]]
-            else:
-                if not acted:
-                    break        # the unmodelled action raised: nothing to compare from here on
-                sa = ax["sa"]
-                if len(sa) > 5:
-                    # a pending valign is completed inside render: synchronise after the render
-                    if "st" not in r:
-                        break
-                    sa = r["st"]
-                ops += [5, sa[0], sa[1], sa[2], sa[3]] + self.enc_pend(sa[4])
-            ops += [1, maxrow, ff]
-        return l + [nops] + ops
+            ops += pl[1] + ([] if stp.get("nr") else [1, stp["mr"], 1 if stp["ff"] else 0])
+        return l + [len(case["steps"])] + ops
 
     def decode(self, case, ints):
-        res, aux = self._cache["res"], self._cache["aux"]
+        res, _aux = self.cached(case)
         it = iter(ints)
 
         def state():
@@ -469,7 +450,7 @@ class C07(core.Check):
             """one model reply: (err | None, outcome, state)"""
             c = next(it)
             if c != 0:
-                return ERRN.get(c, "?"), None, None
+                return norm_err(ERRN.get(c, "?")), None, None
             t = next(it)
             if t == 0:
                 oc = None
@@ -484,53 +465,396 @@ class C07(core.Check):
 
         steps = []
         try:
-            for i, stp in enumerate(case["steps"]):
-                if i >= len(res["steps"]):
-                    break
+            for i, (stp, pl) in enumerate(zip(case["steps"], self.plan(case))):
+                r = res["steps"][i]
                 a = stp["a"]
-                r, ax = res["steps"][i], aux[i]
                 out = {}
-                if self.modelled(case, a):
-                    if a[0] != "none":
-                        if a[0] in EDITS and "sa" not in ax:
-                            steps.append(dict(r))
-                            break
+                steps.append(out)
+                if pl[0] == "stop":
+                    out.update(r)           # nothing comparable: the step is taken as is
+                    break
+                if pl[0] == "model":
+                    if pl[1]:
                         err, oc, st = reply()
                         if err:
-                            out.update(err=err, where="action")
-                            steps.append(out)
+                            out.update(err=err, exc=r.get("exc"), where="action")
                             break
-                        if a[0] in ("key", "mouse"):
-                            out["act"] = oc
-                        out["sa"] = st
                     else:
-                        out["sa"] = ax.get("sa")
+                        st = r.get("sa")
+                    out["fa"] = st[0]
+                    out["sa"] = st
+                    if a[0] in ("key", "mouse"):
+                        out["act"] = oc
                 else:
-                    if "sa" not in ax or (len(ax["sa"]) > 5 and "st" not in r):
-                        steps.append(dict(r))     # not comparable: copy
-                        break
-                    reply()                       # the OSync
+                    reply()                 # OItems
+                    reply()                 # OSync
+                    out["fa"] = r.get("fa")
+                if stp.get("nr"):
+                    continue
                 err, oc, st = reply()
                 if err:
-                    out.update(err=err, where="render")
-                    steps.append(out)
+                    out.update(err=err, exc=r.get("exc"), where="render")
+                    out["n"] = r.get("n")
                     break
                 out["view"], out["cur"] = oc
-                out["st"] = st
+                out["st"] = st + r.get("st", [])[5:]      # the alignment-pending marker is not part of the model
+                out["f"] = st[0]
                 for kk in ("fcy", "hs", "sel"):
                     out[kk] = r.get(kk)
-                steps.append(out)
         except StopIteration:
             return {"malformed": ints[:60]}
-        return self.canon_res({"steps": steps})
+        return {"steps": steps}
+
+    # ---------- oracle: written from the property text; uses only the case and what was observed ----------
+    def oracle(self, case, res):
+        msgs = []
+        steps = res.get("steps", [])
+        pending_since = None     # index of a set_focus whose completion has not been rendered yet
+        deleted_since = False
+        for i, r in enumerate(steps):
+            stp = case["steps"][i]
+            a, maxrow, ff = stp["a"], stp["mr"], bool(stp["ff"])
+            tag = f"step {i} ({a[0]}{' ' + str(a[1]) if a[0] == 'key' else ''})"
+            if a[0] == "set_focus" and "err" not in r:
+                pending_since, deleted_since = i, False
+            if a[0] in ("delete", "clear", "replace") and pending_since is not None:
+                deleted_since = True
+            if "err" in r:
+                if r.get("where") == "render":
+                    extra = ""
+                    if pending_since is not None and deleted_since:
+                        extra = " [a set_focus request was pending while items were removed from the walker]"
+                    msgs.append(f"{tag}: render raised {r.get('exc')}{extra}")
+                # exceptions raised by keypress / mouse_event / the direct calls are outside the literal statement
+                break
+            if "view" not in r:
+                continue
+            pending_since = None
+            view, hs, f = r["view"], r["hs"], r["f"]
+            stack = [[k, j] for k, h in enumerate(hs) for j in range(h)]
+            if len(view) != maxrow:
+                msgs.append(f"{tag}: rendered {len(view)} rows in a box of {maxrow}")
+                continue
+            nb = next((j for j, row in enumerate(view) if row == [-1, -1]), len(view))
+            if any(row != [-1, -1] for row in view[nb:]):
+                msgs.append(f"{tag}: a blank row lies above a row of an item: {view}")
+                continue
+            content = view[:nb]
+            if nb:
+                if content[0] not in stack:
+                    msgs.append(f"{tag}: row {content[0]} is not a row of any item")
+                    continue
+                p = stack.index(content[0])
+            else:
+                p = len(stack)
+            if stack[p:p + nb] != content:
+                msgs.append(f"{tag}: the rows shown are not a contiguous slice of the stacked items: {view}")
+                continue
+            if nb < maxrow:
+                if p + nb != len(stack):
+                    msgs.append(f"{tag}: blank rows below row {p + nb - 1} although items continue below: {view}")
+                elif p != 0:
+                    msgs.append(f"{tag}: blank rows at the bottom while {p} rows above the window are not shown: {view}")
+            if f is not None and f >= 0 and f < len(hs):
+                if hs[f] >= 1 and not any(row[0] == f for row in content):
+                    msgs.append(f"{tag}: no row of the focus item {f} is visible: {view}")
+                fcy = r.get("fcy")
+                if fcy is not None and hs[f] >= 1 and ff:
+                    cur = r.get("cur")
+                    if cur is None or not (0 <= cur < len(view)) or view[cur] != [f, fcy]:
+                        msgs.append(f"{tag}: the cursor row {fcy} of the focus item {f} is not shown at the canvas cursor "
+                                    f"(cursor y {cur}): {view}")
+            elif stack:
+                msgs.append(f"{tag}: no focus although the list has rows")
+            # button-1 press on a visible selectable item makes it the focus
+            if a[0] == "mouse" and a[1] == 1 and i > 0:
+                prev, pstp = steps[i - 1], case["steps"][i - 1]
+                if "view" in prev and pstp["mr"] == maxrow and pstp["ff"] and 0 <= a[2] < maxrow:
+                    tgt = prev["view"][a[2]][0]
+                    if tgt >= 0 and prev["sel"][tgt] and r.get("fa") != tgt:
+                        extra = ""
+                        if len(prev.get("st", [])) > 5:
+                            extra = " [a set_focus_valign request was still pending: the canvas shown came from the cache]"
+                        msgs.append(f"{tag}: button-1 press on row {a[2]} (selectable item {tgt}) left the focus at "
+                                    f"{r.get('fa')}{extra}")
+        return msgs
+
+    def nontrivial(self, case, res):
+        return any(("view" in s and any(row != [-1, -1] for row in s["view"])) or "err" in s for s in res.get("steps", []))
+
+    def signature(self, case, msg):
+        msg = re.sub(r"\[\[.*", "", msg)
+        return re.sub(r"\d+", "N", msg)
+
+    def distribution(self, case, res, dist):
+        def inc(k):
+            dist[k] = dist.get(k, 0) + 1
+        inc("kind:" + case.get("kind", "item") + ("/state" if case.get("state") is not None else "/history"))
+        inc("walker:" + case.get("walker", "sflw"))
+        inc("items:%d" % min(len(case["items"]), 9))
+        for stp, r in zip(case["steps"], res.get("steps", [])):
+            a = stp["a"]
+            inc("action:" + a[0] + (":" + str(a[1]) if a[0] == "key" else ""))
+            if "err" in r:
+                inc(f"raised:{r['where']}:{a[0]}{':' + str(a[1]) if a[0] == 'key' else ''}:{r.get('exc')}")
+                continue
+            if "view" not in r:
+                inc("step_without_render")
+                continue
+            nb = sum(1 for row in r["view"] if row != [-1, -1])
+            inc("view:" + ("full" if nb == len(r["view"]) else "blank" if nb == 0 else "short"))
+            f, hs = r["f"], r["hs"]
+            if f is not None and 0 <= f < len(hs) and hs[f] == 0:
+                inc("focus_zero_height")
+            if r.get("fcy") is not None:
+                inc("cursor_checked")
+            if r["st"][2] != 0:
+                inc("inset_state")
+
+    # ---------- generators ----------
+    @staticmethod
+    def step(a, mr, ff=1):
+        return {"a": a, "mr": mr, "ff": ff}
+
+    def state_cases(self, nmax, hmax, mrmax):
+        wk = itertools.cycle(["sflw", "slw", "custom"])
+        for n in range(1, nmax + 1):
+            for hs in itertools.product(range(0, hmax + 1), repeat=n):
+                for maxrow in range(1, mrmax + 1):
+                    for fpos in range(n):
+                        for off in range(0, maxrow + 2):
+                            insets = [(0, 1)] if off else [(0, 1), (1, 2), (1, 3), (2, 3)]
+                            for ins in insets:
+                                for cy in [None] + list(range(hs[fpos])):
+                                    items = [[hs[i], 1, cy if i == fpos else None] for i in range(n)]
+                                    yield {"walker": next(wk), "items": items, "focus": fpos,
+                                           "state": [off, ins[0], ins[1]],
+                                           "steps": [self.step(["none"], maxrow, 1)]}
+
+    KEYS = ["up", "down", "page up", "page down", "home", "end", "j", "k", "x"]
+
+    def rand_spec(self, rng, hmax):
+        h = rng.choice([0, 1, 1, 2, 3, hmax, hmax + 2])
+        sel = rng.random() < 0.6
+        cy = rng.randrange(h) if (h and sel and rng.random() < 0.6) else None
+        return [h, 1 if sel else 0, cy]
+
+    def random_history(self, rng, kind="item", nsteps=12):
+        n = rng.choice([0, 1, 2, 3, 3, 4, 5, 7])
+        hmax = rng.choice([2, 3, 5])
+        items = [self.rand_spec(rng, hmax) for _ in range(n)]
+        if kind == "item" and rng.random() < 0.2:
+            for it in items:
+                it[1] = 1
+        maxrow = rng.choice([1, 2, 3, 4, 5, 6])
+        case = {"kind": kind, "walker": rng.choice(["sflw", "sflw", "slw", "custom"]), "items": items,
+                "focus": rng.randrange(n) if n else 0, "steps": []}
+        if kind == "item" and rng.random() < 0.3 and n:
+            off = rng.randrange(0, maxrow + 2)
+            d = rng.choice([1, 2, 3, 5])
+            case["state"] = [off, (rng.randrange(d) if off == 0 else 0), d]
+        cur = [list(x) for x in items]
+        steps = [self.step(["none"], maxrow, 1)]
+        for _ in range(nsteps):
+            x = rng.random()
+            ff = 0 if rng.random() < 0.1 else 1
+            if rng.random() < 0.12:
+                maxrow = rng.choice([1, 2, 3, 4, 5, 6, 8])
+            m = len(cur)
+            if x < 0.45:
+                a = ["key", rng.choice(self.KEYS[:6] * 3 + self.KEYS[6:])]
+            elif x < 0.57:
+                a = ["mouse", rng.choice([1, 1, 1, 4, 5, 2]), rng.randrange(maxrow)]
+            elif x < 0.67:
+                a = ["set_focus", rng.randrange(m) if m and rng.random() < 0.93 else rng.choice([-1, m, m + 2]),
+                     rng.choice([None, "above", "below"])]
+            elif x < 0.73:
+                a = ["valign", rng.choice(["top", "middle", "bottom", ["relative", rng.choice([0, 10, 33, 50, 90, 100])]])]
+            elif x < 0.80:
+                a = ["insert", rng.randrange(m + 1), self.rand_spec(rng, hmax)]
+            elif x < 0.86:
+                a = ["delete", rng.randrange(m)] if m else ["none"]
+            elif x < 0.89:
+                a = ["replace", rng.randrange(m), self.rand_spec(rng, hmax)] if m else ["none"]
+            elif x < 0.92 and kind == "item":
+                a = ["reflow", [self.rand_spec(rng, hmax) for _ in range(m)]]
+            elif x < 0.93:
+                a = ["clear"]
+            elif x < 0.96 and m:
+                a = ["shift", rng.randrange(-hmax, maxrow + 1)]
+            elif x < 0.98 and m:
+                a = ["change", rng.randrange(m), rng.randrange(-hmax, maxrow + 2), rng.choice([None, "above", "below"])]
+            elif m:
+                a = ["mcv"]
+            else:
+                a = ["none"]
+            if a[0] == "insert":
+                cur.insert(a[1], a[2])
+            elif a[0] == "delete":
+                del cur[a[1]]
+            elif a[0] == "replace":
+                cur[a[1]] = a[2]
+            elif a[0] == "reflow":
+                cur = [list(x) for x in a[1]]
+            elif a[0] == "clear":
+                cur = []
+            steps.append(self.step(a, maxrow, ff))
+            if a[0] in ("set_focus", "valign", "insert", "delete", "replace", "clear") and rng.random() < 0.25:
+                steps[-1]["nr"] = 1
+        case["steps"] = steps
+        return case
+
+    def key_histories(self, rng, nmax, depth, sample):
+        """every key sequence of the given depth over small lists (sampled lists when sample is set)"""
+        keys = ["up", "down", "page up", "page down", "home", "end"]
+        lists = []
+        for n in range(1, nmax + 1):
+            for hs in itertools.product(range(0, 4), repeat=n):
+                for sels in itertools.product([0, 1], repeat=n):
+                    lists.append((hs, sels))
+        if sample and len(lists) > sample:
+            lists = rng.sample(lists, sample)
+        for hs, sels in lists:
+            n = len(hs)
+            for maxrow in (1, 2, 4):
+                items = [[hs[i], sels[i], (hs[i] - 1 if (hs[i] and sels[i] and i % 2 == 0) else None)] for i in range(n)]
+                for seq in itertools.product(keys, repeat=depth):
+                    yield {"walker": "sflw", "items": items, "focus": rng.randrange(n),
+                           "steps": [self.step(["none"], maxrow)] + [self.step(["key", k], maxrow) for k in seq]}
+
+    def cases(self, rng, tier):
+        if tier == "quick":
+            yield from self.state_cases(3, 3, 4)
+            for _ in range(1500):
+                yield self.random_history(rng, "item", rng.choice([6, 10, 14]))
+            for _ in range(400):
+                yield self.random_history(rng, "real", rng.choice([6, 10, 14]))
+            yield from self.key_histories(rng, 3, 2, 12)
+        else:
+            yield from self.state_cases(3, 4, 5)
+            for _ in range(20000):
+                yield self.random_history(rng, "item", rng.choice([6, 10, 14, 24]))
+            for _ in range(5000):
+                yield self.random_history(rng, "real", rng.choice([6, 10, 14, 24]))
+            yield from self.key_histories(rng, 3, 3, 60)
+
+    def search_cases(self, rng, tier):
+        yield from self.state_cases(2, 4, 6)
+        while True:
+            yield self.random_history(rng, rng.choice(["item", "item", "real"]), rng.choice([4, 8, 16]))
+
+    def shrink_candidates(self, case):
+        steps = case["steps"]
+        for i in range(len(steps) - 1, -1, -1):
+            c = dict(case)
+            c["steps"] = steps[:i] + steps[i + 1:]
+            if c["steps"]:
+                yield c
+        for i in range(len(steps) - 1, 0, -1):
+            if steps[i]["a"][0] != "none":
+                c = dict(case)
+                c["steps"] = steps[:i]
+                yield c
+        n = len(case["items"])
+        edits = any(s["a"][0] in EDITS + ("set_focus", "change") for s in steps)
+        if n > 1 and not edits:
+            for i in range(n):
+                if i == case.get("focus", 0):
+                    continue
+                c = dict(case)
+                c["items"] = case["items"][:i] + case["items"][i + 1:]
+                c["focus"] = case.get("focus", 0) - (1 if i < case.get("focus", 0) else 0)
+                yield c
+        for i in range(n):
+            h, sel, cy = case["items"][i]
+            if h > 1 and (cy is None or cy < h - 1):
+                c = dict(case)
+                c["items"] = [list(x) for x in case["items"]]
+                c["items"][i][0] = h - 1
+                yield c
+
+    # ---------- the two-writers scan (part of the tie between the theorems and the code) ----------
+    def extra_checks(self, tier, rng, ev):
+        viols = []
+        sites = []
+        root = os.path.join(core.REPO, "urwid")
+        for path in sorted(glob.glob(os.path.join(root, "**", "*.py"), recursive=True)):
+            rel = os.path.relpath(path, core.REPO)
+            try:
+                tree = ast.parse(open(path, encoding="utf8").read())
+            except SyntaxError as e:
+                viols.append(({"ast": rel}, f"cannot parse {rel}: {e}"))
+                continue
+            self._scan(tree, rel, sites)
+        ev["dist"]["view_state_write_sites"] = len(sites)
+        expected = {("urwid/widget/listbox.py", "ListBox", fn) for fn in WRITERS}
+        per = {}
+        for rel, cls, fn, attr, line, how in sites:
+            per[(rel, cls, fn, attr)] = per.get((rel, cls, fn, attr), 0) + 1
+            if (rel, cls, fn) not in expected or how != "assign":
+                viols.append(({"ast": [rel, cls, fn, attr, line, how]},
+                              f"offset_rows/inset_fraction written outside shift_focus/change_focus: {rel}:{line} "
+                              f"{cls}.{fn} ({how} of {attr}); the invariant argument of C07 no longer covers the code"))
+        want = {("__init__", 1), ("shift_focus", 2), ("change_focus", 2)}
+        for fn, cnt in want:
+            for attr in VIEW_ATTRS:
+                got = per.get(("urwid/widget/listbox.py", "ListBox", fn, attr), 0)
+                if got != cnt:
+                    viols.append(({"ast": ["urwid/widget/listbox.py", "ListBox", fn, attr, got]},
+                                  f"ListBox.{fn} writes {attr} at {got} sites, the model has {cnt}"))
+        return viols
 
     @staticmethod
-    def canon_res(res):
-        for s in res["steps"]:
-            if "err" in s:
-                s["err"] = norm_err(s["err"])
-        return res
+    def _scan(tree, rel, sites):
+        def targets(node):
+            if isinstance(node, (ast.Tuple, ast.List)):
+                for e in node.elts:
+                    yield from targets(e)
+            elif isinstance(node, ast.Starred):
+                yield from targets(node.value)
+            else:
+                yield node
 
-    # the comparison in core is canon(model) == canon(impl): normalise the impl side the same way
-    def run_impl_canon(self, case):
-        return self.canon_res(self.run_impl(case))
+        def visit(node, cls, fn):
+            for child in ast.iter_child_nodes(node):
+                c, f = cls, fn
+                if isinstance(child, ast.ClassDef):
+                    c, f = child.name, None
+                elif isinstance(child, (ast.FunctionDef, ast.AsyncFunctionDef)):
+                    f = child.name if fn is None else fn + "." + child.name
+                tg, how = [], "assign"
+                if isinstance(child, ast.Assign):
+                    tg = [t for x in child.targets for t in targets(x)]
+                elif isinstance(child, (ast.AugAssign, ast.AnnAssign)):
+                    tg, how = list(targets(child.target)), "assign" if isinstance(child, ast.AnnAssign) else "augassign"
+                elif isinstance(child, ast.Delete):
+                    tg, how = [t for x in child.targets for t in targets(x)], "del"
+                elif isinstance(child, (ast.For, ast.AsyncFor)):
+                    tg, how = list(targets(child.target)), "for-target"
+                elif isinstance(child, (ast.With, ast.AsyncWith)):
+                    tg, how = [t for it in child.items if it.optional_vars is not None for t in targets(it.optional_vars)], "with-target"
+                elif isinstance(child, ast.NamedExpr):
+                    tg = [child.target]
+                for t in tg:
+                    if isinstance(t, ast.Attribute) and t.attr in VIEW_ATTRS:
+                        sites.append((rel, c, f, t.attr, t.lineno, how))
+                if isinstance(child, ast.Call):
+                    fnm = child.func.id if isinstance(child.func, ast.Name) else getattr(child.func, "attr", "")
+                    if fnm in ("setattr", "delattr", "__setattr__", "__delattr__") or fnm == "update":
+                        for arg in child.args:
+                            if isinstance(arg, ast.Constant) and arg.value in VIEW_ATTRS:
+                                sites.append((rel, c, f, arg.value, child.lineno, fnm))
+                        for kw in child.keywords:
+                            if kw.arg in VIEW_ATTRS:
+                                sites.append((rel, c, f, kw.arg, child.lineno, fnm + "-kw"))
+                visit(child, c, f)
+        visit(tree, None, None)
+
+    level_text = ""
+    level_note = ""
+    rule = ""
+    trusted_base = []
+    assumptions = []
+
+
+CHECK = C07
